@@ -77,7 +77,7 @@ def pair_cases():
 
 
 def decode(d):
-    return {"d": gen.path_text(d, min_cmds=1, max_cmds=11)[0]}
+    return {"d": gen.path_text(d, min_cmds=1, max_cmds=11)[0], "ctor": d.choice(lib.CTOR_FORMS)}
 
 
 def sampled():
@@ -172,7 +172,8 @@ def check(case):
     letters = [c for _, c in ref.spans]
     for a, b in zip(letters, letters[1:]):
         o.label("pair:%s%s" % (a, b))
-    path = se.Path(d)
+    path = lib.path_from_text(d, case.get("ctor", "pos"))
+    o.label("ctor:%s" % case.get("ctor", "pos"))
     S = lib.scale_of([[s.get("s"), s.get("e"), s.get("c"), s.get("c1"), s.get("c2")] for s in ref.segments])
     bad = compare_segments(o, ref.segments, path, S)
     if bad is not None:
